@@ -39,6 +39,18 @@ def teardown(ctx):
 
 def gen(rng, ctx):
     big = ctx.tier == "thorough"
+    if ctx.gen_index == 2 and ctx.index < 2:
+        # one gate with 520..700 operands: in assign form the text is one expression of that many terms
+        n_ = rng.randint(520, 700)
+        cd = G.new_cdict("wide")
+        cd["nodes"] += [["i0", "input", False], ["i1", "input", False], ["i2", "input", False]]
+        prev = ["i0", "i1", "i2"]
+        for j in range(n_):
+            cd["nodes"].append([f"t{j}", rng.choice(["not", "buf"]), False])
+            cd["edges"].append([prev[j % 3] if j < 3 else f"t{j - 3}", f"t{j}"])
+        cd["nodes"].append(["g", rng.choice(["and", "or", "xor", "xnor", "nand"]), True])
+        cd["edges"] += [[f"t{j}", "g"] for j in range(n_)]
+        return {"c": cd, "kind": "plain+huge_gate", "behavioral": ctx.index == 0, "file": False}
     ni = rng.randint(1, 5)
     ng = rng.randint(1, 9 if not big else 14)
     pconst = rng.choice([0.0, 0.0, 0.4, 0.8])
